@@ -121,6 +121,7 @@ kll_sketch<T, C, A>& kll_sketch<T, C, A>::operator=(const kll_sketch& other) {
 template<typename T, typename C, typename A>
 kll_sketch<T, C, A>& kll_sketch<T, C, A>::operator=(kll_sketch&& other) {
   reset_sorted_view(); // release the cached view through the allocator that allocated it
+  other.reset_sorted_view(); // the source receives this object's state and allocator: its view would be stale and foreign
   std::swap(comparator_, other.comparator_);
   std::swap(allocator_, other.allocator_);
   std::swap(k_, other.k_);
